@@ -74,6 +74,11 @@ def run_history(args):
                 edited_since_build = False
                 continue
             res["ok_builds"] += 1
+            # the secondary oracle builds exactly what was asked for: when a single node was built, a copy of the description with a
+            # target naming that node (the clean build of the whole default target may legitimately fail elsewhere)
+            odesc, otarget = desc, target
+            if node is not None:
+                odesc = desc.clone(); otarget = "oracle-node"; odesc.targets[otarget] = [node]
             bad, pr = bh.check_outputs(sb, desc, roots)
             res["files_checked"] += len(pr.files)
             if pr.fails:
@@ -81,7 +86,7 @@ def run_history(args):
                 break
             if bad:
                 # secondary oracle before believing the primary one
-                clean = bh.clean_build_oracle(sb, desc, target if node is None else "", fl, "x")
+                clean = bh.clean_build_oracle(sb, odesc, otarget, fl, "x")
                 res["clean_oracle_runs"] += 1
                 agree = clean is not None and all(clean.get(p_) == v for p_, v in pr.files.items())
                 if not agree:
@@ -90,7 +95,7 @@ def run_history(args):
                     res["viol"].append(("C08", "after a successful incremental build an output differs from the clean-build content", wit(bad[:5])))
                 break
             elif rnd.random() < 0.15:
-                clean = bh.clean_build_oracle(sb, desc, target if node is None else "", fl, "s")
+                clean = bh.clean_build_oracle(sb, odesc, otarget, fl, "s")
                 res["clean_oracle_runs"] += 1
                 if clean is None or any(clean.get(p_) != v for p_, v in pr.files.items()):
                     res["inconclusive"].append("prediction and real clean build disagree (seed %d index %d)" % (seed, index))
